@@ -1,0 +1,18 @@
+/*
+ *  libzvbi -- verification annotations
+ *
+ *  Loop contracts for the CBMC proofs kept outside this repository.
+ *  With ZAPPING_VBI_ZVBI_VERIF undefined (every normal build) the macro
+ *  expands to nothing and the compiled code is unchanged.
+ */
+
+#ifndef __ZVBI_VERIF_ANNOT_H__
+#define __ZVBI_VERIF_ANNOT_H__
+
+#ifdef ZAPPING_VBI_ZVBI_VERIF
+#  define ZVBI_LOOP_CONTRACT(...) __VA_ARGS__
+#else
+#  define ZVBI_LOOP_CONTRACT(...)
+#endif
+
+#endif /* __ZVBI_VERIF_ANNOT_H__ */
